@@ -1472,8 +1472,11 @@ impl PeerConnection {
 
         // Update next_mid to avoid collisions with remote MIDs
         for section in &desc.media_sections {
-            if let Ok(mid_val) = section.mid.parse::<u16>() {
-                self.inner.next_mid.fetch_max(mid_val + 1, Ordering::SeqCst);
+            // a=mid:65535 has no successor in the u16 counter; there is nothing to reserve then
+            if let Ok(mid_val) = section.mid.parse::<u16>()
+                && let Some(next) = mid_val.checked_add(1)
+            {
+                self.inner.next_mid.fetch_max(next, Ordering::SeqCst);
             }
         }
 
